@@ -566,6 +566,24 @@ func solveOne(o *Obligation, file string, altFiles []string, secs int, thorough 
 			r.output = fmt.Sprintf("solver disagreement: %s says %s, %s says %s", r.solver, r.verdict, r2.solver, r2.verdict)
 		}
 	}
+	// A refutation (`sat`) is believed only when a second solver does not contradict it: z3 4.8.12 was seen answering
+	// `sat` under load on a query that it and z3 5.1 both decide `unsat` when asked again.  The other z3 is asked with the
+	// full budget; `unsat` there wins (a proof found by one solver stands), `sat` or no answer leaves the refutation.
+	if r.verdict == "sat" {
+		other := solvers[0]
+		if strings.HasPrefix(r.solver, "z3-new") {
+			other = solvers[2]
+		}
+		r2 := runSolver(other, file, secs)
+		total += r2.secs
+		if r2.verdict == "unsat" {
+			r3 := runSolver(solvers[0], file, secs) // ask the newer z3 once more for the record
+			total += r3.secs
+			if r3.verdict != "sat" {
+				r = solveResult{verdict: "unsat", solver: r2.solver + "(refutation by " + r.solver + " not reproduced)", secs: r2.secs, output: r2.output}
+			}
+		}
+	}
 	o.Solver = r.solver
 	o.Secs = total
 	o.Output = firstLines(r.output, 6)
